@@ -53,6 +53,14 @@ def make(case):
         data[0] = 0.0
         rng.shuffle(data[1:])
         kw = {"binsize": 1.0}
+        if rng.random() < .4:
+            # the smallest datum is exactly 0 (sometimes several times, also as -0.0) and the range starts whole bins
+            # below it: leading empty bins, and the zeros belong to bin k >= 1
+            z = int(rng.integers(0, 4))
+            data = np.concatenate([data, np.zeros(z), -np.zeros(int(rng.integers(0, 2)))])
+            kw["min"] = -float(rng.integers(1, 4)) * float(rng.choice([1.0, 0.5]))
+            if rng.random() < .3:
+                kw = {"nbin": int(rng.integers(3, 9)), "min": kw["min"], "max": float(np.ceil(data.max())) + 1.0}
     else:
         n = int(rng.choice([1, 2, 3, 5, 12, 40, 150, 300, 450]))
         data = rng.integers(-10, 11, size=n).astype("f8") if rng.random() < .5 else rng.normal(size=n)
@@ -128,7 +136,12 @@ def judge_stats(mon, b, x, y, w, vmin, vmax, binsize, nbin, nperbin, mergelast, 
             COL.skipped(mon, "edge-rounding")
             return
         if np.asarray(b["hist"]).tolist() != ref["hist"].tolist():
-            return  # C05's business; nothing to compare against
+            # the counts themselves are C05's subject, but statistics reported for another membership than
+            # floor((x-min)/binsize) are not "computed from the members of each bin" either
+            COL.violation(mon, "%s: the per-bin statistics belong to counts %r, the members of the bins by floor((x-min)/binsize) number %r" % (
+                entry, np.asarray(b["hist"]).tolist()[:12], ref["hist"].tolist()[:12]),
+                {"min": vmin, "max": vmax, "binsize": binsize, "nbin": nbin, "x_head": np.sort(x)[:8].tolist()}, key=None)
+            return
         members = [np.asarray(m, dtype=np.int64) for m in ref["members"]]
         scale = max(abs(lo), abs(hi), abs(bsz))
         for i in range(nb):
